@@ -18,6 +18,12 @@ def run(pid, path):
         out = agentlib.run_scripts([rp["script"]], wd, "replay")
         for ev in out[rp["script"]["id"]]:
             print(json.dumps(ev))
+    elif rp.get("kind") == "pair_script":
+        import paircheck
+        wd = workdir("replay")
+        for _id, evs in paircheck.replay_pair(rp["script"], wd).items():
+            for ev in evs:
+                print(json.dumps(ev))
     elif rp.get("kind") == "tcp_script":
         import tcpcheck
         tcpcheck.replay(rp)
